@@ -159,6 +159,11 @@ def cli_case(ctx, rng, idx, from_file, fixed=None):
             gen.render(rng.choice(["snake", "camel", "kebab"]), rwords)
         if idx % 4 == 1:
             ctx.count("cli:case_only_terms")
+        if idx % 6 == 5:
+            # a text file with one byte that is not valid UTF-8 AFTER its last occurrence of the term (Latin-1 é):
+            # apply either refuses it or must leave that byte alone
+            tree["legacy_notes.txt"] = ("f", (gen.render("snake", swords) + " was here, caf\xe9 tail\n").encode("latin-1"), 0o644)
+            ctx.count("cli:latin1_file")
     with common.scratch() as d:
         common.materialize(d, tree)
         before = common.snapshot(d)
@@ -202,7 +207,8 @@ def run(ctx):
     ctx.cov["rule"] = ("edits: random multi-byte contents with consistent edit lists plus a malformed stream; "
                        "applytree: generated trees (depth<=4, term in any subset of components, modes, symlinks) with "
                        "by-construction plans plus stale/occupied perturbations, one in five with a replacement that is the term's words run "
-                       "together so that camel/Pascal names are renamed by letter case only; cli: plan->apply (direct and from saved file) "
+                       "together so that camel/Pascal names are renamed by letter case only, one in seven with a text file holding a byte that "
+                       "is not valid UTF-8 after its last match; cli: plan->apply (direct and from saved file) "
                        "with whole-tree snapshot vs reference interpreter. non-trivial = at least one edit or rename; "
                        "distinct = distinct request line / (tree, terms)")
     ctx.assumptions += ["POSIX rename/chmod semantics of the local filesystem as modelled in RModel.Model.Fs",
@@ -250,6 +256,10 @@ def run(ctx):
         if any(a.lower() == b.lower() and a != b for _, a, b in rens):
             ctx.count("tree:has_case_only_rename")
         kind = "wellformed"
+        if i % 7 == 6:
+            tree["legacy_notes.txt"] = ("f", (gen.render("snake", swords) + " was here, caf\xe9 tail\n").encode("latin-1"), 0o644)
+            hunks, rens = build_plan_for_tree(rng, tree, swords, rwords)
+            kind = "latin1"
         if i % 4 == 3:
             kind, tree, hunks, rens = perturb_plan(rng, tree, hunks, rens)
         reqs.append(" ".join(["applytree"] + gen.wire_tree(tree) + gen.wire_hunks(hunks) + gen.wire_rens(rens)))
@@ -259,8 +269,9 @@ def run(ctx):
         ctx.case(r, nontrivial=bool(hunks or rens))
         ctx.count("tree:" + kind)
         ctx.count("tree:impl=" + impl.split()[0])
-        if kind == "wellformed":
-            # oracle: reference interpretation of the by-construction plan
+        if kind in ("wellformed", "latin1"):
+            # oracle: reference interpretation of the by-construction plan (for a tree with a file that is not valid
+            # UTF-8: only when apply reports success — it may refuse, which is C04's subject)
             plan = {"matches": [{"file": f, "content": b, "replace": a, "start": s, "end": e} for f, b, a, s, e in hunks],
                     "paths": [{"kind": "dir" if k == "d" else "file", "path": p, "new_path": q} for k, p, q in rens]}
             snap = gen.tree_to_snap(tree)
@@ -275,6 +286,9 @@ def run(ctx):
                 # then is C04's subject (since repo commit 6667a82 the renames are rolled back); model and
                 # implementation have already been compared on it above
                 ctx.count("tree:backupfailed")
+                continue
+            if kind == "latin1" and out[0] != "ok":
+                ctx.count("tree:latin1_refused")
                 continue
             if out[0] != "ok" or got != exp:
                 ctx.violation("input", {"op": "applytree", "request": r, "tree": common.snap_digest(snap), "plan": plan},
